@@ -2,6 +2,7 @@
    ValidProofs.v discharged for the math, html/url, string and array filters. *)
 From LV Require Import Base Consts Value Stack Utf8 Filters_math Filters_html Filters_seq Eval BaseLemmas
   Utf8Proofs ValueProofs SafeProofs ValidProofs.
+From LV Require Import Filters_date ValidDate.
 Require Import ZifyBool ZifyNat ZifyN.
 
 Lemma sv_incl a b : incl a b -> sv b = true -> sv a = true.
@@ -278,6 +279,18 @@ Proof.
   - apply varray_vv. match goal with H : sort_by _ _ = Ok _ |- _ => apply keyed_sort_incl in H; eapply vvl_incl; [exact H|apply as_sequence_vv; assumption] end.
 Qed.
 
+(* the date filter: the input itself, or what strftime wrote from a valid format *)
+Lemma date_filter_vv v args r : vv v = true -> forallb vv args = true -> date_filter O v args = Ok r -> vv r = true.
+Proof.
+  intros Hv Ha E. unfold date_filter in E. destruct args as [|a [|b args']]; try discriminate.
+  cbn [forallb] in Ha. apply andb_true_iff in Ha as [Ha _].
+  pose proof (kstr_valid a Ha) as Hf.
+  destruct v; try (inversion E; subst; exact Hv).
+  destruct (to_date_time O s) as [t|]; [|inversion E; subst; exact Hv].
+  destruct (to_kstr O a) as [|c fmt] eqn:Ek; [inversion E; subst; exact Hv|].
+  destruct (Strftime.strftime t (c :: fmt)) as [o| | |] eqn:Es; try discriminate. inversion E; subst.
+  cbn [vv]. eapply strftime_sv; [exact Hf|exact Es].
+Qed.
 (* what FV of ValidProofs.v asks for *)
 Theorem apply_filter_vv f v args r : vv v = true -> forallb vv args = true -> apply_filter O f v args = Ok r -> vv r = true.
 Proof.
@@ -285,6 +298,7 @@ Proof.
   - apply math_filter_vv.
   - destruct args; [apply html_filter_vv; exact Hv|discriminate].
   - apply seq_filter_vv; assumption.
+  - apply date_filter_vv; assumption.
 Qed.
 End FV.
 
